@@ -3,15 +3,18 @@ From B39 Require Import Proofs.Calls.
 From B39 Require Import Lib.Base Lib.Sha256 Lib.Nfkd Model.GenTypes Model.Model Spec.Bip39Spec.
 From B39 Require Import Lib.Utf8 Proofs.Tables Proofs.LibContract Proofs.Sound Proofs.Api Proofs.Idem Proofs.Canonical.
 
-(* any two strings with the same NFKD form, every Language value (supported or not) *)
+(* any two strings (valid UTF-8: the NFKD form of anything else is not defined by Unicode, and the contract of the
+   library says nothing about it) with the same NFKD form, every Language value (supported or not) *)
 Theorem C10_same_nfkd : forall lib, lib_contract lib -> forall (s1 s2 : list byte) (l : Z),
+  utf8_valid s1 = true -> utf8_valid s2 = true ->
   nfkd s1 = nfkd s2 -> (CheckMnemonicL lib s1 l = Ret None <-> CheckMnemonicL lib s2 l = Ret None).
 Proof. exact same_nfkd_same_verdict. Qed.
 
 (* in particular every spelling (NFC, NFD, NFKC, full-width, U+3000 or other separators that NFKD
    maps to U+0020, ...) whose NFKD form is a valid sentence is accepted *)
 Theorem C10_valid_spellings : forall lib, lib_contract lib -> forall (name : string) (l : Z) (idx : list N) (s : list byte),
-  supported name l -> valid_wc (length idx) -> Forall (fun i => (i < 2048)%N) idx -> checksum_okb sha256 idx = true ->
+  supported name l -> utf8_valid s = true ->
+  valid_wc (length idx) -> Forall (fun i => (i < 2048)%N) idx -> checksum_okb sha256 idx = true ->
   nfkd s = join [x20] (map (word_at (canon name)) idx) ->
   CheckMnemonicL lib s l = Ret None.
 Proof. exact valid_spelling_accepted. Qed.
